@@ -54,7 +54,7 @@ func TestWorker(t *testing.T) {
 	}
 	runtime.GOMAXPROCS(int(envInt("VERIF_GOMAXPROCS", 1)))
 	ctx := &Ctx{Prop: prop, Tier: os.Getenv("VERIF_TIER"), Engine: spec.Engine}
-	rep := &WorkerReport{Worker: int(wid), Discards: map[string]int64{}, Stats: map[string]int64{}, MaxStats: map[string]int64{}}
+	rep := &WorkerReport{AbortAt: -1, Worker: int(wid), Discards: map[string]int64{}, Stats: map[string]int64{}, MaxStats: map[string]int64{}}
 	start := time.Now()
 	seenSig := map[string]int{}
 	hashes := map[uint64]struct{}{}
@@ -63,7 +63,22 @@ func TestWorker(t *testing.T) {
 	prog, _ := os.OpenFile(out+".progress", os.O_CREATE|os.O_WRONLY|os.O_TRUNC, 0o644)
 	minBudget := int(envInt("VERIF_MIN_EVALS", 1500))
 	maxSamples := 6
+	recycle := false
+	minTotal := time.Duration(envInt("VERIF_MIN_TOTAL_SECONDS", 30)) * time.Second
+	var minSpent time.Duration
+	violCases := int64(0)
+	maxViolCases := envInt("VERIF_MAX_VIOL_CASES", 40)
 	for i := from + wid; i < n; i += nw {
+		if violCases >= maxViolCases {
+			// the tree is clearly broken for this property: report what was found
+			rep.Stats["stopped-early-after-many-violations"] = 1
+			break
+		}
+		if recycle {
+			rep.AbortAt = i - nw
+			rep.Stats["worker-recycled-for-memory"] = 1
+			break
+		}
 		if prog != nil {
 			prog.WriteAt([]byte(fmt.Sprintf("%-20d", i)), 0)
 		}
@@ -105,6 +120,29 @@ func TestWorker(t *testing.T) {
 		if len(rep.Samples) < maxSamples && r.NonTrivial && (i/nw)%7 == 0 {
 			rep.Samples = append(rep.Samples, r.Decoded)
 		}
+		if (rep.Cases%32 == 0 || len(r.Viol) > 0) && heapInUse() > uint64(envInt("VERIF_RECYCLE_MB", 1500))<<20 {
+			// tasks of aborted runs stay parked for ever and pin their memory:
+			// recycle the process (the driver relaunches from the next case)
+			recycle = true
+		}
+		if r.Abort {
+			for _, v := range r.Viol {
+				if v.Prop == prop {
+					rep.Failures = append(rep.Failures, Failure{Viol: v, Case: uint64(i), Tape: tp.Values(), Decoded: r.Decoded, MinFrom: len(tp.Rec), Count: 1, Unstable: true})
+				}
+			}
+			rep.AbortAt = i
+			break
+		}
+		own := false
+		for _, v := range r.Viol {
+			if v.Prop == prop {
+				own = true
+			}
+		}
+		if own {
+			violCases++
+		}
 		for _, v := range r.Viol {
 			if v.Prop != prop {
 				rep.Stats["other-property-violations."+v.Prop]++
@@ -119,7 +157,20 @@ func TestWorker(t *testing.T) {
 				labels[j] = d.L
 			}
 			f := Failure{Viol: v, Case: uint64(i), Tape: tp.Values(), Decoded: r.Decoded, MinFrom: len(tp.Rec), Count: 1}
-			best, dec, det, evals := minimise(t, spec.Fn, ctx, f.Tape, v, minBudget, time.Duration(envInt("VERIF_MIN_SECONDS", 25))*time.Second)
+			left := minTotal - minSpent
+			if minSpent >= minTotal {
+				left = 0
+			}
+			per := time.Duration(envInt("VERIF_MIN_SECONDS", 20)) * time.Second
+			if left < per {
+				per = left
+			}
+			t0 := time.Now()
+			best, dec, det, evals := f.Tape, map[string]any(nil), map[string]any(nil), 0
+			if per > 0 {
+				best, dec, det, evals = minimise(t, spec.Fn, ctx, f.Tape, v, minBudget, per)
+			}
+			minSpent += time.Since(t0)
 			f.MinEvals = evals
 			if dec != nil {
 				f.Tape, f.Decoded = best, dec
@@ -157,6 +208,11 @@ func TestReplay(t *testing.T) {
 	if os.Getenv("VERIF_ROLE") != "replay" {
 		t.Skip("not a replay")
 	}
+	if mem := envInt("VERIF_MEMLIMIT_MB", 0); mem > 0 && !simrt.RaceBuild {
+		lim := syscall.Rlimit{Cur: uint64(mem) << 20, Max: uint64(mem) << 20}
+		syscall.Setrlimit(syscall.RLIMIT_AS, &lim)
+	}
+	runtime.GOMAXPROCS(int(envInt("VERIF_GOMAXPROCS", 1)))
 	path := os.Getenv("VERIF_REPLAY")
 	b, err := os.ReadFile(path)
 	must(err)
@@ -177,4 +233,10 @@ func TestReplay(t *testing.T) {
 	r := spec.Fn(t, tp, ctx)
 	res := map[string]any{"violations": r.Viol, "infra": r.Infra, "discard": r.Discard, "decoded": r.Decoded}
 	must(writeJSON(os.Getenv("VERIF_OUT"), res))
+}
+
+func heapInUse() uint64 {
+	var ms runtime.MemStats
+	runtime.ReadMemStats(&ms)
+	return ms.HeapInuse
 }
